@@ -73,7 +73,12 @@ def cnv : D → Except DErr D
           match dLookupLast "__pvalue" es with
           | some (.str s) => decodeLeafD tn s
           | some (.hash _) => .error .unmodelled
-          | none => .error .unmodelled
+          | none =>
+            if isObjType tn then
+              match cnvAttrs es with
+              | .error e => .error e
+              | .ok r => .ok (.obj tn r)
+            else .error .unmodelled
           | some _ => .error .badValue
       | _ => .error .badType
     | none =>
@@ -114,6 +119,20 @@ def cnvPVSens : List (D × D) → Except DErr D
   | [] => .ok .undef
   | (k, v) :: es =>
     if k.isKey "__pvalue" && !dHasKey "__pvalue" es then cnv v else cnvPVSens es
+def cnvAttrs : List (D × D) → Except DErr (List (String × D))
+  | [] => .ok []
+  | (k, v) :: es =>
+    match k with
+    | .str s =>
+      if s = "__ptype" then cnvAttrs es
+      else
+        match cnv v with
+        | .error e => .error e
+        | .ok v' =>
+          match cnvAttrs es with
+          | .error e => .error e
+          | .ok r => .ok ((s, v') :: r)
+    | _ => .error .badValue
 def cnvFlat : List D → Except DErr (List (D × D))
   | [] => .ok []
   | [_] => .error .badValue
@@ -138,11 +157,15 @@ def V.noRes : V → Bool
   | .hash _ es => !(allStrKeys es && hasKey "__ptype" es) && noResPairs es
   | .arr _ vs => noResList vs
   | .sens _ v => v.noRes
+  | .obj _ tn _ as => isObjType tn && noResAttrs as
   | _ => true
 def noResList : List V → Bool
   | [] => true | v :: vs => v.noRes && noResList vs
 def noResPairs : List (V × V) → Bool
   | [] => true | (k, v) :: es => k.noRes && v.noRes && noResPairs es
+/-- attribute names are not the reserved keys -/
+def noResAttrs : List (String × V) → Bool
+  | [] => true | (k, v) :: as => (k != "__ptype" && k != "__pvalue") && v.noRes && noResAttrs as
 end
 
 mutual
@@ -162,6 +185,11 @@ end
 def Frag (c : Cfg) (v : V) : Prop := v.noRes = true ∧ (c.rich = false → v.isData = true)
 def FragList (c : Cfg) (vs : List V) : Prop := noResList vs = true ∧ (c.rich = false → isDataList vs = true)
 def FragPairs (c : Cfg) (es : List (V × V)) : Prop := noResPairs es = true ∧ (c.rich = false → isDataPairs es = true)
+
+theorem isObjType_ne (tn : String) (h : isObjType tn = true) :
+    tn ≠ "Hash" ∧ tn ≠ "Sensitive" ∧ tn ≠ "Default" := by
+  simp only [isObjType, objTypes, List.contains_cons, List.contains_nil, Bool.or_false, Bool.or_eq_true, beq_iff_eq] at h
+  rcases h with rfl | rfl | rfl <;> decide
 
 /-- the leaf-codec hypothesis for Binary: decoding inverts encoding -/
 def B64Ok : Prop := ∀ bs, unb64 (b64 bs) = some bs
@@ -197,6 +225,10 @@ def TripPairs (c : Cfg) (es : List (V × V)) : Prop :=
   ∃ flat ps, dataOfList (plainPairs c es) = some flat ∧ pairUpD flat = some ps ∧
     cnvFlat flat = .ok (absPairs es) ∧ cnvPairs ps = .ok (absPairs es) ∧
     dAllStrKeys ps = allStrKeys es ∧ ∀ n, dHasKey n ps = hasKey n es
+
+def TripAttrs (c : Cfg) (as : List (String × V)) : Prop :=
+  ∃ flat ps, dataOfList (plainAttrs c as) = some flat ∧ pairUpD flat = some ps ∧ dAllStrKeys ps = true ∧
+    dHasKey "__ptype" ps = false ∧ dHasKey "__pvalue" ps = false ∧ cnvAttrs ps = .ok (absAttrs as)
 
 theorem trip_scalar (c : Cfg) (v : V) (d : D) (h1 : dataOf (plain c v) = some d) (h2 : cnv d = .ok v.abs)
     (h3 : d.isStr = v.isStr) (h4 : ∀ n, d.isKey n = v.isKey n) : Trip c v := ⟨d, h1, h2, h3, h4⟩
@@ -293,6 +325,23 @@ theorem plain_trip (c : Cfg) (hb : B64Ok) : ∀ (v : V), Frag c v → Trip c v
         · simp only [plain, hc, hr, if_true, Bool.false_eq_true, if_false]
           exact typed_data _ _ (.arr flat) (by simp [dataOf, hd1])
         · simp [cnv, typed_lookup, cnvPVHash, D.isKey, dHasKey, hd3, V.abs]
+  | .obj id tn disp as, hf => by
+      have hr : c.rich = true := by
+        cases h : c.rich with
+        | true => rfl
+        | false => have := hf.2 h; simp [V.isData] at this
+      have hn : isObjType tn = true ∧ noResAttrs as = true := by simpa [V.noRes] using hf.1
+      obtain ⟨n1, n2, n3⟩ := isObjType_ne tn hn.1
+      obtain ⟨flat, ps, h1, h2, h3, h4, h5, h6⟩ := plainAttrs_trip c hb as hr hn.2
+      refine trip_scalar c _ (.hash ((.str "__ptype", .str tn) :: ps)) ?_ ?_ rfl (fun _ => rfl)
+      · simp [plain, hr, ptypeEv, dataOf, dataOfList, scD, h1, pairUpD, h2]
+      · have hl1 : (if dAllStrKeys ((D.str "__ptype", D.str tn) :: ps) then
+            dLookupLast "__ptype" ((D.str "__ptype", D.str tn) :: ps) else none) = some (.str tn) := by
+          simp [dAllStrKeys, D.isStr, h3, dLookupLast, D.isKey, h4]
+        have hl2 : dLookupLast "__pvalue" ((D.str "__ptype", D.str tn) :: ps) = none := by
+          simp [dLookupLast, D.isKey, dLookupLast_none "__pvalue" ps h5]
+        simp only [cnv, hl1, if_neg n1, if_neg n2, if_neg n3, hl2, hn.1, if_true]
+        simp [cnvAttrs, h6, V.abs]
 
 theorem plainList_trip (c : Cfg) (hb : B64Ok) : ∀ (vs : List V), FragList c vs → TripList c vs
   | [], _ => ⟨[], by simp [plainList, dataOfList], by simp [cnvList, absList]⟩
@@ -323,6 +372,23 @@ theorem plainPairs_trip (c : Cfg) (hb : B64Ok) : ∀ (es : List (V × V)), FragP
       · simp [cnvPairs, hk2, hv2, hs4, absPairs]
       · simp [dAllStrKeys, allStrKeys, hk3, hs5]
       · intro n; simp [dHasKey, hasKey, hk4 n, hs6 n]
+
+theorem plainAttrs_trip (c : Cfg) (hb : B64Ok) : ∀ (as : List (String × V)), c.rich = true → noResAttrs as = true →
+    TripAttrs c as
+  | [], _, _ => ⟨[], [], by simp [plainAttrs, dataOfList], by simp [pairUpD], by simp [dAllStrKeys], by simp [dHasKey],
+      by simp [dHasKey], by simp [cnvAttrs, absAttrs]⟩
+  | (k, v) :: as, hr, hn => by
+      have hn' : ((k ≠ "__ptype" ∧ k ≠ "__pvalue") ∧ v.noRes = true) ∧ noResAttrs as = true := by
+        simpa [noResAttrs] using hn
+      obtain ⟨dv, hv1, hv2, _, _⟩ := plain_trip c hb v ⟨hn'.1.2, fun h => by simp [hr] at h⟩
+      obtain ⟨flat, ps, h1, h2, h3, h4, h5, h6⟩ := plainAttrs_trip c hb as hr hn'.2
+      refine ⟨.str k :: dv :: flat, (.str k, dv) :: ps, ?_, ?_, ?_, ?_, ?_, ?_⟩
+      · simp [plainAttrs, dataOfList, dataOf, scD, hv1, h1]
+      · simp [pairUpD, h2]
+      · simp [dAllStrKeys, D.isStr, h3]
+      · simp [dHasKey, D.isKey, h4, hn'.1.1.1]
+      · simp [dHasKey, D.isKey, h5, hn'.1.1.2]
+      · simp [cnvAttrs, hn'.1.1.1, hv2, h6, absAttrs]
 end
 
 end Pcore.Ser
